@@ -46,6 +46,7 @@ int snoopy_datasourceregistry_callByName(char const *const, char *const, size_t,
 
 static const char *scratch = "/tmp";
 static FILE *OUT;      /* result pipe of the case */
+static int case_no = 0;
 
 /* ------------------------------------------------------------------ interposed clock and procfs redirection */
 static int fake_clock = 0; static long fake_sec = 0, fake_usec = 0;
@@ -55,10 +56,15 @@ int gettimeofday(struct timeval *tv, void *tz) {
     if (tv) { tv->tv_sec = ts.tv_sec; tv->tv_usec = ts.tv_nsec / 1000; }
     return 0;
 }
+/* time() reads the kernel's COARSE clock (vDSO, CLOCK_REALTIME_COARSE): it lags the fine clock by up to one timer tick.
+ * "coarse=<usec>" constructs that lag for the pinned clock. */
+static long coarse_lag_usec = 0;
 time_t time(time_t *t) {
     struct timeval tv; gettimeofday(&tv, 0);
-    if (t) *t = tv.tv_sec;
-    return tv.tv_sec;
+    long long us = (long long)tv.tv_sec * 1000000 + tv.tv_usec - (fake_clock ? coarse_lag_usec : 0);
+    time_t r = (time_t)(us >= 0 ? us / 1000000 : 0);
+    if (t) *t = r;
+    return r;
 }
 
 #define MAXFAKE 64
@@ -329,8 +335,9 @@ static void *thread_main(void *p) { measure_and_run((struct job *)p); return 0; 
 static void construct_and_run(int nf, char **f) {
     struct job j = {nf, f, 0, 0, "main"};
     const char *v;
-    char dir[PATH_MAX]; snprintf(dir, sizeof dir, "%s/c%d", scratch, (int)getpid()); mkdir(dir, 0755);
+    char dir[PATH_MAX]; snprintf(dir, sizeof dir, "%s/c%d_%d", scratch, case_no, (int)getpid()); mkdir(dir, 0755);   /* case number: pids are reused */
     if ((v = kv(nf, f, "clock")) && strcmp(v, "real")) { fake_clock = 1; fake_sec = atol(v); const char *d = strchr(v, '.'); fake_usec = d ? atol(d + 1) : 0; }
+    if ((v = kv(nf, f, "coarse"))) coarse_lag_usec = atol(v);
     /* host name in a private UTS namespace */
     if ((v = kv(nf, f, "host")) && strcmp(v, "keep")) { vbytes h = parse_bytes(v); if (unshare(CLONE_NEWUTS)) die("unshare-uts"); if (sethostname(h.p, h.n)) die("sethostname"); }
     if ((v = kv(nf, f, "hosts"))) { vbytes t = parse_bytes(v); char p[PATH_MAX]; snprintf(p, sizeof p, "%s/hosts", dir); spit(p, t.p, t.n); fake_hosts = strdup(p); }
@@ -488,7 +495,7 @@ int main(int argc, char **argv) {
         char *f[MAXF]; char *copy = strdup(line); int nf = split_tabs(copy, f);
         if (nf < 1 || strcmp(f[0], "state")) { printf("driver-error:bad-case\n"); continue; }
         int pfd[2]; if (pipe(pfd)) { perror("pipe"); return 2; }
-        fflush(stdout);
+        fflush(stdout); case_no++;
         pid_t pid = fork(); if (pid < 0) { perror("fork"); return 2; }
         if (pid == 0) {
             close(pfd[0]); int hi = fcntl(pfd[1], F_DUPFD, 100); close(pfd[1]);
